@@ -16,7 +16,10 @@ Property theorems only (helper lemmas live in D3/Proofs/DistLine*.lean).  Everyt
 
 Total functions (`point_to_line`, `point_to_plane`, `plane_to_plane`) have no `_ok` theorem: their model
 does not return `Except` because they contain no division.
-As-is defect: `planeToHull_asIs_band`, `planeToTriangle_asIs_counterexample` (finding F-c10-plane-hull-swapped).
+Repaired defect (/repo 4c5c535, was finding F-c10-plane-hull-swapped): `planeToHull_before_fix_band`,
+`planeToTriangle_before_fix_counterexample` on the old forwarding `planeToHull_asIs_before_fix`; the current code
+satisfies membership and consistency for every placement (`planeToHull_mem₁/mem₂/dist`, `planeTo…_feas`), only
+the optimality statements keep the band hypothesis `HullNoBand`.
 -/
 import D3.Proofs.DistLineLine
 import D3.Proofs.DistLineSegV
@@ -310,21 +313,19 @@ example : UnitVec (⟨0, 0, 1⟩ : V) ∧ UnitVec (⟨0, 0, -1⟩ : V) ∧
 theorem planeToHull_ok (pp n : V) (pts : List V) (hne : pts ≠ []) : ∃ r, planeToHull pp n pts = .ok r :=
   DistLine.planeToHull_ok pp n pts hne
 
-/-- outside the band (`HullNoBand`): first point on the plane -/
+/-- first point on the plane — for **every** placement (no band hypothesis) -/
 theorem planeToHull_mem₁ {pp n : V} {pts : List V} {r : Res3 ℝ} (h : planeToHull pp n pts = .ok r)
-    (hne : pts ≠ []) (hu : UnitVec n) (hband : HullNoBand pp n pts) : planeSet pp n r.p1 :=
-  (planeToHull_spec h hne hu hband).1
+    (hne : pts ≠ []) (hu : UnitVec n) : planeSet pp n r.p1 := (planeToHull_feas h hne hu).1
 
-/-- second point in the convex hull of the vertices -/
+/-- second point in the convex hull of the vertices — for every placement -/
 theorem planeToHull_mem₂ {pp n : V} {pts : List V} {r : Res3 ℝ} (h : planeToHull pp n pts = .ok r)
-    (hne : pts ≠ []) (hu : UnitVec n) (hband : HullNoBand pp n pts) : Hull pts r.p2 :=
-  (planeToHull_spec h hne hu hband).2.1
+    (hne : pts ≠ []) (hu : UnitVec n) : Hull pts r.p2 := (planeToHull_feas h hne hu).2.1
 
 theorem planeToHull_dist {pp n : V} {pts : List V} {r : Res3 ℝ} (h : planeToHull pp n pts = .ok r)
-    (hne : pts ≠ []) (hu : UnitVec n) (hband : HullNoBand pp n pts) :
-    r.d * r.d = V3.normSq (r.p1 - r.p2) ∧ 0 ≤ r.d := (planeToHull_spec h hne hu hband).2.2.1
+    (hne : pts ≠ []) (hu : UnitVec n) :
+    r.d * r.d = V3.normSq (r.p1 - r.p2) ∧ 0 ≤ r.d := (planeToHull_feas h hne hu).2.2
 
-/-- global optimality against the whole convex hull -/
+/-- global optimality against the whole convex hull, outside the band (`HullNoBand`) -/
 theorem planeToHull_opt {pp n : V} {pts : List V} {r : Res3 ℝ} (h : planeToHull pp n pts = .ok r)
     (hne : pts ≠ []) (hu : UnitVec n) (hband : HullNoBand pp n pts) :
     LowerBound (planeSet pp n) (Hull pts) r.d := (planeToHull_spec h hne hu hband).2.2.2
@@ -337,6 +338,45 @@ theorem planeToRectangle_ok (pp n c ax0 ax1 : V) (l0 l1 : ℝ) :
   planeToHull_ok pp n _ (by simp [rectVertices, rectCoords])
 theorem planeToBox_ok (pp n : V) (A : Pose ℝ) (size : V) : ∃ r, planeToBox pp n A size = .ok r :=
   planeToHull_ok pp n _ (by simp [boxVertices, boxCoords])
+
+/-- **`plane_to_triangle`, every placement**: point on the plane, point in the triangle (barycentric
+definition), consistent distance -/
+theorem planeToTriangle_feas {pp n A B C : V} {r : Res3 ℝ} (h : planeToTriangle pp n A B C = .ok r)
+    (hu : UnitVec n) :
+    planeSet pp n r.p1 ∧ triangleSet A B C r.p2 ∧ (r.d * r.d = V3.normSq (r.p1 - r.p2) ∧ 0 ≤ r.d) := by
+  obtain ⟨h1, h2, h3⟩ := planeToHull_feas h (by simp) hu
+  exact ⟨h1, (hull_triangle A B C _).mp h2, h3⟩
+
+/-- **`plane_to_rectangle`, every placement**, for positive side lengths -/
+theorem planeToRectangle_feas {pp n c ax0 ax1 : V} {l0 l1 : ℝ} {r : Res3 ℝ}
+    (h : planeToRectangle pp n c ax0 ax1 l0 l1 = .ok r) (hu : UnitVec n) (h0 : 0 < l0) (h1 : 0 < l1) :
+    planeSet pp n r.p1 ∧ rectSet c ax0 ax1 l0 l1 r.p2 ∧ (r.d * r.d = V3.normSq (r.p1 - r.p2) ∧ 0 ≤ r.d) := by
+  obtain ⟨m1, m2, m3⟩ := planeToHull_feas h (by simp [rectVertices, rectCoords]) hu
+  exact ⟨m1, (hull_rect c ax0 ax1 l0 l1 h0 h1 _).mp m2, m3⟩
+
+/-- **`plane_to_box`, every placement**, for positive edge lengths -/
+theorem planeToBox_feas {pp n : V} {A : Pose ℝ} {size : V} {r : Res3 ℝ}
+    (h : planeToBox pp n A size = .ok r) (hu : UnitVec n)
+    (hx : 0 < size.x) (hy : 0 < size.y) (hz : 0 < size.z) :
+    planeSet pp n r.p1 ∧ boxSet A size r.p2 ∧ (r.d * r.d = V3.normSq (r.p1 - r.p2) ∧ 0 ≤ r.d) := by
+  obtain ⟨m1, m2, m3⟩ := planeToHull_feas h (by simp [boxVertices, boxCoords]) hu
+  exact ⟨m1, (hull_box A size hx hy hz _).mp m2, m3⟩
+
+/-- **tail of `plane_to_ellipsoid` / `plane_to_cylinder`, every placement**: for two points `pm pq` of a convex
+body `K` the result is a point on the plane, a point of `K`, at the reported distance -/
+theorem planeToSupportPair_feas {pp n pm pq : V} {K : V → Prop} {r : Res3 ℝ}
+    (h : planeToSupportPair pp n pm pq = .ok r) (hu : UnitVec n) (hc : ConvexSet K) (hm : K pm) (hq : K pq) :
+    planeSet pp n r.p1 ∧ K r.p2 ∧ (r.d * r.d = V3.normSq (r.p1 - r.p2) ∧ 0 ≤ r.d) :=
+  DistLine.planeToSupportPair_feas h hu hc hm hq
+
+/-- on the witness of the repaired finding the current code is feasible (and the old code was not:
+`planeToTriangle_before_fix_counterexample`) -/
+example : ∃ r, planeToTriangle (⟨0, 0, 0⟩ : V) ⟨0, 0, 1⟩ ⟨0, 0, -(1 / 4096)⟩ ⟨1, 0, 1 / 4096⟩ ⟨0, 1, 1 / 4096⟩
+      = .ok r ∧ planeSet (⟨0, 0, 0⟩ : V) ⟨0, 0, 1⟩ r.p1 ∧
+      triangleSet (⟨0, 0, -(1 / 4096)⟩ : V) ⟨1, 0, 1 / 4096⟩ ⟨0, 1, 1 / 4096⟩ r.p2 := by
+  obtain ⟨r, hr⟩ := planeToTriangle_ok (⟨0, 0, 0⟩ : V) ⟨0, 0, 1⟩ ⟨0, 0, -(1 / 4096)⟩ ⟨1, 0, 1 / 4096⟩ ⟨0, 1, 1 / 4096⟩
+  have := planeToTriangle_feas hr (by unfold UnitVec; vsimp; norm_num)
+  exact ⟨r, hr, this.1, this.2.1⟩
 
 /-- **`plane_to_triangle`** outside the band: point on the plane, point in the triangle (barycentric
 definition), consistent distance, global optimality against the whole triangle -/
@@ -405,20 +445,23 @@ example : HullNoBand (⟨0, 0, 0⟩ : V) ⟨0, 0, 1⟩ [⟨0, 0, 1⟩, ⟨1, 0, 
   simp only [List.mem_cons, List.mem_nil_iff, or_false] at hp
   rcases hp with rfl | rfl | rfl <;> revert hpn <;> vsimp <;> norm_num
 
-/-- **As-is defect inside the band** (finding F-c10-plane-hull-swapped): see `DistLine.planeToHull_asIs_band`. -/
-theorem planeToHull_asIs_band {pp n : V} {pts : List V} {r : Res3 ℝ} (h : planeToHull pp n pts = .ok r)
+/-- **Defect of the code before /repo 4c5c535** (finding F-c10-plane-hull-swapped, repaired): inside the band the
+old forwarding returned a vertex strictly below the plane as "closest point on the plane". -/
+theorem planeToHull_before_fix_band {pp n : V} {pts : List V} {r : Res3 ℝ}
+    (h : planeToHull_asIs_before_fix pp n pts = .ok r)
     (hex : ∃ p ∈ pts, ∃ q ∈ pts, V3.dot (p - pp) n < 0 ∧ 0 < V3.dot (q - pp) n)
     (hall : ∀ p ∈ pts, ∀ q ∈ pts, V3.dot (p - pp) n < 0 → 0 < V3.dot (q - pp) n →
       V3.dot (segmentToLine p q).1 n * V3.dot (segmentToLine p q).1 n < 1e-6) :
-    ¬ planeSet pp n r.p1 ∧ 0 < r.d ∧ r.br = 3 := DistLine.planeToHull_asIs_band h hex hall
+    ¬ planeSet pp n r.p1 ∧ 0 < r.d ∧ r.br = 3 := DistLine.planeToHull_before_fix_band h hex hall
 
-/-- concrete counterexample in the primitive domain P (triangle with edges ≈ 1 crossing the plane at 0.03°):
-the point returned as "closest point on the plane" is not on the plane and `d > 0` although the
-triangle intersects the plane -/
-theorem planeToTriangle_asIs_counterexample :
-    ∃ r, planeToTriangle (⟨0, 0, 0⟩ : V) ⟨0, 0, 1⟩ ⟨0, 0, -(1 / 4096)⟩ ⟨1, 0, 1 / 4096⟩ ⟨0, 1, 1 / 4096⟩ = .ok r ∧
+/-- concrete counterexample for the old code in the primitive domain P (triangle with edges ≈ 1 crossing the
+plane at 0.03°): the point returned as "closest point on the plane" was not on the plane; kept as a regression
+witness of the harness -/
+theorem planeToTriangle_before_fix_counterexample :
+    ∃ r, planeToTriangle_asIs_before_fix (⟨0, 0, 0⟩ : V) ⟨0, 0, 1⟩ ⟨0, 0, -(1 / 4096)⟩ ⟨1, 0, 1 / 4096⟩
+        ⟨0, 1, 1 / 4096⟩ = .ok r ∧
       ¬ planeSet (⟨0, 0, 0⟩ : V) ⟨0, 0, 1⟩ r.p1 ∧ 0 < r.d :=
-  DistLine.planeToTriangle_asIs_counterexample
+  DistLine.planeToTriangle_before_fix_counterexample
 
 end C10
 end D3
